@@ -838,7 +838,10 @@ func (x *run) act(a string) bool {
 				x.callbacks()
 				want := 0
 				if reg && !x.conf.nocb {
-					want = 1 // an occupant presence of a registered address that completes no join
+					// an occupant presence of a registered address that completes no join: one callback per
+					// muc#user child (the multiplexer runs the handler for each; how often the application
+					// hears of one presence is not the property's business, that it hears of it is)
+					want = item.times()
 				}
 				if x.upres-before != want {
 					key := "presence-of-unjoined-room-not-ignored"
